@@ -426,7 +426,7 @@ fn run_miri(ctx: &Ctx, n: usize) -> SubResult {
 }
 
 pub fn subchecks(tier: Tier) -> Vec<SubCheck> {
-    let n = tier.pick(60_000usize, 1_000_000usize);
+    let n = tier.pick(120_000usize, 1_500_000usize);
     let mut v = vec![SubCheck {
         name: "transcripts_across_configurations",
         run: Box::new(move |ctx| run_c14(ctx, n)),
